@@ -184,7 +184,10 @@ def fp_circuit(circ):
         wires[f"{t}{r}"] = [[sp, noise_desc(c.dag.nodes[n]["op"].noise)] for n, sp in lst]
     parts["wires"] = core.canon(wires)
     parts["regs"] = (c.n_emitters, c.n_photons, c.n_classical)
-    carries_noise = '"NoNoise"' not in parts["wires"] or any(x not in ('NoNoise',) for x in _noise_names(parts["wires"]))
+    # (a circuit without any operation carries no noise: an earlier version read "no NoNoise entry" as "noisy", skipped
+    # the stabilizer compile of the emptied circuit and then compared a state with the marker - a false alarm of this
+    # harness on circuits that remove_identity empties, seen once in a thorough run)
+    carries_noise = any(x != "NoNoise" for x in _noise_names(parts["wires"]))
     shared = None
     for (b, nz, d) in STATE_KEYS:
         if b == "stab" and nz and carries_noise:
@@ -211,7 +214,9 @@ def fp_circuit(circ):
 def _noise_names(wires_json):
     import re
 
-    return set(re.findall(r'\["([A-Za-z]+)",\[', wires_json)) & {"NoNoise", "DepolarizingNoise", "PauliError", "PhotonLoss", "OneQubitGateReplacement", "TwoQubitControlledGateReplacement", "MixedUnitaryError", "CoherentUnitaryError", "LocalCliffordError"}
+    names = set(re.findall(r'\["([A-Za-z]+)",\[', wires_json))
+    known = {"NoNoise", "DepolarizingNoise", "PauliError", "PhotonLoss", "OneQubitGateReplacement", "TwoQubitControlledGateReplacement", "MixedUnitaryError", "CoherentUnitaryError", "LocalCliffordError"}
+    return {x for x in names if x in known or x.endswith(("Noise", "Error", "Loss", "Replacement"))}
 
 
 def fp_target(t):
@@ -241,6 +246,8 @@ def fp_target(t):
 def diff_fp(a, b, keys=None):
     out = []
     for k in (keys or a.keys()):
+        if k in b and (a[k] == ("skipped",) or b[k] == ("skipped",)) and isinstance(a[k], tuple) and isinstance(b[k], tuple):
+            continue  # not computed on one side: nothing to compare
         if k not in b or not same_component(a[k], b[k]):
             out.append(k)
     return out
